@@ -143,6 +143,9 @@ func processSecurityVote(ctx sdk.Context, k keeper.Keeper, proposal types.Propos
 	// Else: the proposal passed the certifier voting period.
 
 	if endVoting {
+		// the proposal is finalised here: deposits go back as on every other non-vetoed outcome
+		k.RefundDepositsByProposalID(ctx, proposal.ProposalId)
+
 		handler := k.Router().GetRoute(proposal.ProposalRoute())
 		cacheCtx, writeCache := ctx.CacheContext()
 
